@@ -67,7 +67,8 @@ static void do_api(op_t op) {
         int denied = !CX.exists || ctx_hidden();
         take_snap(&sn);
         switch (op.a) {
-        case 0: rc = (int)m_ctx_len(); if (!denied && rc != n_present()) vfail("CX.len", "CX.len", "m_ctx_len=%d", rc); break;
+        case 0: { rc = (int)m_ctx_len(); int busy = teardown_busy; for (int i = 0; i < NM; i++) busy |= dereg_busy[i];
+            if (!denied && !busy && rc != n_present()) vfail("CX.len", "CX.len", "m_ctx_len=%d, monitor has %d modules", rc, n_present()); break; }
         case 1: rc = m_ctx_name() ? 0 : -1; break;
         case 2: { m_ctx_stats_t st; rc = m_ctx_stats(&st); if (!denied && !CX.looping) rc = 0; } break;
         case 3: rc = m_ctx_dump(); break;
@@ -128,7 +129,13 @@ static void do_api(op_t op) {
     case O_REG: {
         m_mod_hook_t hk = { w_start, (op.b >> 1) ? w_eval : NULL, w_evt0, w_stop };
         m_mod_t *nh = NULL; take_snap(&sn);
-        int legal = CX.exists && !CX.finalized && !MD[s].present && !ctx_hidden();
+        int replace = CX.exists && !CX.finalized && MD[s].present && !ctx_hidden() && mflag(s, M_MOD_ALLOW_REPLACE) && !(mflag(s, M_MOD_PERSIST) && CX.looping) && !dereg_busy[s] && !teardown_busy;
+        m_mod_t *oldh = NULL;
+        if (replace) {       /* the existing module allows replacement: it is deregistered first (ZOMBIE, with its on_stop if RUNNING/PAUSED) */
+            if (MD[s].st == S_RUNNING) exp_stop_run[s]++; else if (MD[s].st == S_PAUSED) exp_stop_other[s]++; else opt_stop[s]++;
+            mon_stop_effects(s); oldh = MD[s].h; dereg_busy[s]++;
+        }
+        int legal = (CX.exists && !CX.finalized && !MD[s].present && !ctx_hidden()) || replace;
         int save_eval = MD[s].evalmode;
         if (legal) { MD[s].evalmode = op.b >> 1; }
         rc = m_mod_register(MD[s].name, &nh, &hk, MFLAGS[op.d], &MD[s]);
@@ -136,7 +143,15 @@ static void do_api(op_t op) {
             if (rc >= 0) vfail("ST.refuse", !CX.exists ? "CX.none|register" : CX.finalized ? "CX.finalized" : "NM.uniq", "m_mod_register returned %d although %s", rc, !CX.exists ? "the thread has no context" : CX.finalized ? "the context is finalized" : "the name is taken");
             if (MD[s].present && CX.exists && !CX.finalized && !ctx_hidden() && rc != -EEXIST) vfail("NM.uniq", "NM.uniq|code", "duplicate name refused with %d, expected -EEXIST", rc);
             check_unchanged(&sn, "m_mod_register", "ST.refuse|register"); break; }
-        if (rc) vfail("NM.reg", "NM.reg", "m_mod_register of a free name returned %d", rc);
+        if (rc) vfail("NM.reg", replace ? "NM.replace|rc" : "NM.reg", "m_mod_register of a %s name returned %d", replace ? "replaceable" : "free", rc);
+        if (replace) {
+            dereg_busy[s]--; mon_flush();
+            if (!m_mod_is(oldh, M_MOD_ZOMBIE)) vfail("NM.replace", "NM.replace|not-zombie", "the replaced module is not a ZOMBIE after its replacement was registered");
+            const char *onm = m_mod_name(oldh); if (!onm || strcmp(onm, MD[s].name)) vfail("ST.zombie", "ST.zombie|name", "replaced module lost its name");
+            int xb = MD[s].extra; set_zombie(s); MD[s].extra = xb;
+            if (xb == 0) { m_mem_unref(oldh); MD[s].ptr = NULL; }        /* the harness drops its reference on the replaced module at once */
+            else vfail("INTERNAL", "INTERNAL", "replace with extra references not generated");
+        }
         mod_t *m = &MD[s];
         if (m->extra > 0 && m->ptr) vfail("INTERNAL", "INTERNAL", "slot reused while a zombie reference is held");
         int gen = m->reg_gen + 1; const char *nm = m->name;
